@@ -107,6 +107,8 @@ def scripted_histories():
             ({'vapp': 0, 'wapp': 2}, ['grow:vapp', 'subset:vapp', 'grow:vapp', 'fail', 'run']),
             # an app that retires itself (DeleteApplication in its own sequence, no models left, still installed)
             ({'vapp': 1, 'wapp': 2}, ['retire:wapp', 'run', 'noop', 'grow:vapp', 'run', 'noop']),
+            # a recorded label in the middle / at the start of the sequence is wiped: only that one is unapplied again
+            ({'vapp': 3}, ['wipe:vapp.e1', 'run', 'noop', 'wipe:vapp.e2', 'run']),
             # the operator marks everything as applied while part of the sequence already is
             ({'vapp': 2}, ['grow:vapp', 'markall:vapp', 'run', 'noop'])):
         w = World(True)
@@ -260,6 +262,12 @@ def run(ctx):
                 if not cur:
                     continue
                 r = ctx.rng.choice(cur)
+                if arg:
+                    want = arg.split('.')
+                    named = [x for x in cur if x[0] == want[0] and x[1] == want[1]]
+                    if not named:
+                        continue
+                    r = named[0]
                 from django.core.management import call_command
                 from django.core.management.base import CommandError
                 try:
